@@ -895,18 +895,34 @@ func buildX(s *shapeD, init []int, j *jit, cli []int, dir string, viaHTTP bool) 
 			g.par = append(g.par, liveParam{typ: t, node: n})
 		case "int":
 			n := &parameter.Int{Name: name, DefaultValue: init[p]}
+			if isCLI[p] { // the value comes from the command line flag; the default is another one
+				n.DefaultValue = (init[p] + 1) % 10
+				n.CLI = &parameter.CliConfig[int]{FlagName: name, Usage: "harness"}
+			}
 			ints[p] = n.Out()
 			g.par = append(g.par, liveParam{typ: t, node: n})
 		case "float":
 			n := &parameter.Float64{Name: name, DefaultValue: float64(init[p])}
+			if isCLI[p] {
+				n.DefaultValue = float64((init[p] + 1) % 10)
+				n.CLI = &parameter.CliConfig[float64]{FlagName: name, Usage: "harness"}
+			}
 			floats[p] = n.Out()
 			g.par = append(g.par, liveParam{typ: t, node: n})
 		case "string":
 			n := &parameter.String{Name: name, DefaultValue: strconv.Itoa(init[p])}
+			if isCLI[p] {
+				n.DefaultValue = strconv.Itoa((init[p] + 1) % 10)
+				n.CLI = &parameter.CliConfig[string]{FlagName: name, Usage: "harness"}
+			}
 			strs[p] = n.Out()
 			g.par = append(g.par, liveParam{typ: t, node: n})
 		case "bool":
 			n := &parameter.Bool{Name: name, DefaultValue: init[p] != 0}
+			if isCLI[p] {
+				n.DefaultValue = init[p] == 0
+				n.CLI = &parameter.CliConfig[bool]{FlagName: name, Usage: "harness"}
+			}
 			bools[p] = n.Out()
 			g.par = append(g.par, liveParam{typ: t, node: n})
 		case "file":
@@ -1046,9 +1062,16 @@ func buildX(s *shapeD, init []int, j *jit, cli []int, dir string, viaHTTP bool) 
 		g.inst.InitializeParameters(fs)
 		var args []string
 		for _, p := range cli {
-			path := filepath.Join(dir, fmt.Sprintf("p%d.dat", p))
-			os.WriteFile(path, encodeVal(s.PTypes[p], init[p], "png"), 0o644)
-			args = append(args, fmt.Sprintf("-p%d", p), path)
+			switch s.PTypes[p] {
+			case "int", "float", "string":
+				args = append(args, fmt.Sprintf("-p%d=%d", p, init[p]))
+			case "bool":
+				args = append(args, fmt.Sprintf("-p%d=%v", p, init[p] != 0))
+			default:
+				path := filepath.Join(dir, fmt.Sprintf("p%d.dat", p))
+				os.WriteFile(path, encodeVal(s.PTypes[p], init[p], "png"), 0o644)
+				args = append(args, fmt.Sprintf("-p%d", p), path)
+			}
 		}
 		if err := fs.Parse(args); err != nil {
 			panic(err)
